@@ -770,7 +770,13 @@ fn case_iterator_faults(out: &mut CaseOut, seed: u64, idx: u64) {
     let mut rng = Rng::new(mix(&[seed, idx], "c08-iter"));
     let d = director();
     d.reset(rng.next_u64());
-    let cfg = Config { memtable: *rng.pick(&[512usize, 1024]), file: *rng.pick(&[512u64, 1024]), block: *rng.pick(&[64usize, 256]), reuse: true };
+    // every other case keeps its data in a few large multi-block level-0 tables (no compactions)
+    let level0_heavy = idx % 2 == 1;
+    let cfg = if level0_heavy {
+        Config { memtable: 6000, file: 1 << 20, block: *rng.pick(&[64usize, 128]), reuse: true }
+    } else {
+        Config { memtable: *rng.pick(&[512usize, 1024]), file: *rng.pick(&[512u64, 1024]), block: *rng.pick(&[64usize, 256]), reuse: true }
+    };
     let fs = SimFs::from_image(&dbutil::root_image());
     let mut sess = Session::new(fs.clone(), cfg);
     sess.fill_cache = false;
@@ -792,10 +798,13 @@ fn case_iterator_faults(out: &mut CaseOut, seed: u64, idx: u64) {
             out.inconclusive("degenerate: load refused");
             return;
         }
-        if i % 90 == 89 {
+        if i % 90 == 89 && !level0_heavy {
             let a = rng.pick(&pool).clone();
             sess.compact(Some(&a), None);
         }
+    }
+    if level0_heavy {
+        sess.compact(Some(b"~~~~"), Some(b"~~~~")); // pure flush
     }
     sess.wait_quiescent(std::time::Duration::from_secs(10));
     let files = sess.db().verif_files().len();
@@ -810,7 +819,7 @@ fn case_iterator_faults(out: &mut CaseOut, seed: u64, idx: u64) {
     let mut checker = CursorChecker::new(it, &sess.model);
     checker.tolerate_reported_errors = true;
     let mut fired = 0u64;
-    for _round in 0..40 {
+    for _round in 0..(if level0_heavy { 300 } else { 40 }) {
         let kind = if rng.chance(0.8) { OpKind::Read } else { OpKind::OpenRead };
         fs.arm_fault(Some(Fault { kind, class: PathClass::Table, nth: rng.range(0, 10), mode: FaultMode::Transient, after_effect: false }));
         let ok = checker.run(out, &mut rng, 14, &ctx, "C08/iterator-after-read-fault", &[]);
@@ -826,8 +835,8 @@ fn case_iterator_faults(out: &mut CaseOut, seed: u64, idx: u64) {
     let reported = checker.reported_errors;
     drop(checker);
     sess.close();
-    if fired > 0 && files >= 3 {
-        out.nontrivial(format!("iterator-faults/files{}/reported{}", files.min(12), reported.min(9)));
+    if fired > 0 && files >= 2 {
+        out.nontrivial(format!("iterator-faults/l0heavy{}/files{}/reported{}", level0_heavy as u8, files.min(12), reported.min(9)));
     }
     out.sample = Some(json!({"family": "iterator-under-transient-read-faults", "ctx": ctx, "faults_fired": fired, "errors_reported_to_caller": reported}));
 }
